@@ -41,6 +41,16 @@ pub fn emit(em: &mut Emitter, keys: &[Vec<u8>; 4], ops: &[String]) {
 
 pub fn generate(thorough: bool, seed: u64, part: (usize, usize), em: &mut Emitter) {
     let mut r = Rng::new(seed ^ 0xC16);
+    // the keys of the security interface as the client derives them in a real exchange, for flag sets with and
+    // without NEGOTIATE_128 / NEGOTIATE_56 / VERSION / UNICODE (the server seals with the MS-NLMP keys)
+    if part.0 == 0 {
+        for (k, flags) in [0x62898235u32, 0x42898235, 0xe2898235, 0x42898234, 0x60898235, 0x62088235].iter().enumerate() {
+            let mut ti = crate::props::c15::av(2, &crate::props::c15::utf16("D")); ti.extend(crate::props::c15::av(7, &r.bytes(8))); ti.extend(crate::props::c15::av(0, &[]));
+            let scv = r.bytes(8); let mut sc = [0u8; 8]; sc.copy_from_slice(&scv);
+            let c = crate::props::c01::Case { dom: "DOM".into(), user: "user".into(), pw: "pw".into(), from_hash: false, ra: false, id: 1 + k % 2, flags: *flags, sc, ti, reply: "honest".into(), reply1: "honest".into() };
+            crate::props::c01::run(em, &c);
+        }
+    }
     let keys = |r: &mut Rng| -> [Vec<u8>; 4] { [r.bytes(16), r.bytes(16), r.bytes(16), r.bytes(16)] };
     let msg = |r: &mut Rng| -> Vec<u8> { let n = match r.below(5) { 0 => 0, 1 => 1, 2 => r.below(16), 3 => r.below(300), _ => 270 } as usize; r.bytes(n) };
     // message sequences in both directions, cipher state and sequence numbers carrying over
